@@ -1592,6 +1592,11 @@ func (ia *zzG08Install) trace(out *zzWriter, n int) {
 		_, obs := ia.observe()
 		out.put(map[string]any{"ev": "step", "act": act, "req": args, "code": st.Code, "web": st.Web, "dns": st.DNS,
 			"obs": obs, "fault": ia.fault, "body": st.Body})
+		if ia.w.hung {
+			// a request that was never answered ends the recording
+			return
+		}
+
 		// A server error or a failed boot ends the behaviour (the rest of it
 		// would only repeat the same divergence); so does a long stay.
 		if st.Code >= 500 || st.Code < 0 || sinceReset > 40 {
@@ -1610,7 +1615,12 @@ func TestZZVerifG08Install(t *testing.T) {
 		tw := zzG08WriterOn(t, p)
 		ia.trace(tw, zzG08EnvInt("VERIF_G08_TRACE_N", 300))
 		tw.close()
-		out.put(map[string]any{"kind": "trace", "arena": "install"})
+		out.put(map[string]any{"kind": "trace", "arena": "install", "hung": ia.w.hung})
+		if ia.w.hung {
+			out.put(map[string]any{"kind": "summary", "arena": "install", "stats": map[string]int{"hung": 1, "steps": 0}, "missed": []int{}, "vectors": 0})
+
+			return
+		}
 	}
 
 	if p := os.Getenv("VERIF_G08_SCRIPTS"); p != "" {
@@ -2135,6 +2145,11 @@ func (ta *zzG08TLS) trace(out *zzWriter, n int) {
 		}
 
 		out.put(map[string]any{"ev": "step", "act": act, "req": args, "code": st.Code, "fields": fields, "obs": obs, "body": st.Body})
+		if ta.w.hung {
+			// a request that was never answered ends the recording
+			return
+		}
+
 		if st.Code >= 500 || st.Code < 0 || since > 60 {
 			restart()
 			since = 0
@@ -2151,7 +2166,12 @@ func TestZZVerifG08TLS(t *testing.T) {
 		tw := zzG08WriterOn(t, p)
 		ta.trace(tw, zzG08EnvInt("VERIF_G08_TRACE_N", 300))
 		tw.close()
-		out.put(map[string]any{"kind": "trace", "arena": "tls"})
+		out.put(map[string]any{"kind": "trace", "arena": "tls", "hung": ta.w.hung})
+		if ta.w.hung {
+			out.put(map[string]any{"kind": "summary", "arena": "tls", "stats": map[string]int{"hung": 1, "steps": 0}, "missed": []int{}, "vectors": 0})
+
+			return
+		}
 	}
 
 	if p := os.Getenv("VERIF_G08_SCRIPTS"); p != "" {
